@@ -37,9 +37,12 @@ pub enum Ev {
     IfNotNotD,
     IfZeqZ,
     Pragma,
+    DefineF,
+    UndefF,
+    IfdefF,
 }
 
-pub const EVENTS: [Ev; 27] = [
+pub const EVENTS: [Ev; 30] = [
     Ev::If0,
     Ev::If1,
     Ev::IfD,
@@ -67,6 +70,9 @@ pub const EVENTS: [Ev; 27] = [
     Ev::IfNotNotD,
     Ev::IfZeqZ,
     Ev::Pragma,
+    Ev::DefineF,
+    Ev::UndefF,
+    Ev::IfdefF,
 ];
 
 #[derive(Clone, Debug, PartialEq, Eq, Hash)]
@@ -81,6 +87,7 @@ pub struct Frame {
 pub struct RefState {
     frames: Vec<Frame>,
     m_defined: bool,
+    f_defined: bool,
 }
 
 impl RefState {
@@ -118,6 +125,9 @@ fn text_of(ev: Ev, k: usize) -> String {
         Ev::IfNotNotD => "#if !!D".into(),
         Ev::IfZeqZ => "#if Z == Z".into(),
         Ev::Pragma => "#pragma once".into(),
+        Ev::DefineF => "#define F(x) ((x) + 1)".into(),
+        Ev::UndefF => "#undef F".into(),
+        Ev::IfdefF => "#ifdef F".into(),
     }
 }
 
@@ -127,13 +137,14 @@ fn cond_of(ev: Ev, st: &RefState) -> Option<bool> {
         Ev::If0 | Ev::Elif0 | Ev::IfZ | Ev::ElifZ | Ev::IfNotD | Ev::IfdefU | Ev::IfndefD => false,
         Ev::If1 | Ev::Elif1 | Ev::IfD | Ev::ElifD | Ev::IfDeq1 | Ev::IfdefD | Ev::IfndefU | Ev::ElifNotZ | Ev::IfNotNotD | Ev::IfZeqZ => true,
         Ev::IfdefM => st.m_defined,
+        Ev::IfdefF => st.f_defined,
         Ev::IfndefM => !st.m_defined,
         _ => return None,
     })
 }
 
 fn is_open(ev: Ev) -> bool {
-    matches!(ev, Ev::If0 | Ev::If1 | Ev::IfD | Ev::IfZ | Ev::IfNotD | Ev::IfDeq1 | Ev::IfdefD | Ev::IfdefU | Ev::IfndefD | Ev::IfndefU | Ev::IfdefM | Ev::IfndefM | Ev::IfNotNotD | Ev::IfZeqZ)
+    matches!(ev, Ev::If0 | Ev::If1 | Ev::IfD | Ev::IfZ | Ev::IfNotD | Ev::IfDeq1 | Ev::IfdefD | Ev::IfdefU | Ev::IfndefD | Ev::IfndefU | Ev::IfdefM | Ev::IfndefM | Ev::IfNotNotD | Ev::IfZeqZ | Ev::IfdefF)
 }
 fn is_elif(ev: Ev) -> bool {
     matches!(ev, Ev::Elif0 | Ev::Elif1 | Ev::ElifD | Ev::ElifNotZ | Ev::ElifZ)
@@ -150,6 +161,7 @@ fn enabled(ev: Ev, st: &RefState, max_depth: usize) -> bool {
         Ev::Endif => !st.frames.is_empty(),
         // redefinition of an existing macro is an error the property does not speak about
         Ev::DefineM => !(st.active() && st.m_defined),
+        Ev::DefineF => !(st.active() && st.f_defined),
         _ => true,
     }
 }
@@ -190,6 +202,16 @@ fn step_ref(st: &RefState, ev: Ev) -> RefState {
                     n.m_defined = true;
                 }
             }
+            Ev::DefineF => {
+                if active {
+                    n.f_defined = true;
+                }
+            }
+            Ev::UndefF => {
+                if active {
+                    n.f_defined = false;
+                }
+            }
             Ev::UndefM => {
                 if active {
                     n.m_defined = false;
@@ -206,6 +228,7 @@ struct Key {
     impl_state: u8,
     impl_stack: Vec<u8>,
     impl_m: bool,
+    impl_f: bool,
     rf: RefState,
 }
 
@@ -217,7 +240,7 @@ struct StepResult {
 fn run_history(hist: &[Ev], incdir: &str) -> StepResult {
     // build source and the reference expectations
     let mut src = String::from("char z0;\n");
-    let mut st = RefState { frames: vec![], m_defined: false };
+    let mut st = RefState { frames: vec![], m_defined: false, f_defined: false };
     let mut expect_markers: Vec<(String, bool)> = Vec::new();
     let mut expect_active: Vec<bool> = vec![true];
     let mut expect_error_line: Option<u32> = None;
@@ -242,7 +265,7 @@ fn run_history(hist: &[Ev], incdir: &str) -> StepResult {
     }
     src.push_str("char zend;\n");
     let show = |s: &str| format!("--- source (options -DD=1 -DZ=0)\n{}", s);
-    let (out, tr) = drv::compile_src_probe(src.as_bytes(), &["-O0", "-DD=1", "-DZ=0", "-I", incdir], &["M"]);
+    let (out, tr) = drv::compile_src_probe(src.as_bytes(), &["-O0", "-DD=1", "-DZ=0", "-I", incdir], &["M", "F"]);
     if let Some(el) = expect_error_line {
         // the history ends in an active #error: Err with that line, nothing else
         return match out {
@@ -289,8 +312,12 @@ fn run_history(hist: &[Ev], incdir: &str) -> StepResult {
     if impl_m != st.m_defined {
         return StepResult { key: None, failure: Some(("macro-differs".into(), format!("macro M is {} afterwards but the reference says {}\n{}", if impl_m { "defined" } else { "undefined" }, if st.m_defined { "defined" } else { "undefined" }, show(&src)))) };
     }
+    let impl_f = rec.macros.contains_key("F");
+    if impl_f != st.f_defined {
+        return StepResult { key: None, failure: Some(("macro-differs".into(), format!("function-like macro F is {} afterwards but the reference says {}\n{}", if impl_f { "defined" } else { "undefined" }, if st.f_defined { "defined" } else { "undefined" }, show(&src)))) };
+    }
     let last = main_steps[hist.len()];
-    StepResult { key: Some(Key { impl_state: last.2, impl_stack: last.3.clone(), impl_m, rf: st }), failure: None }
+    StepResult { key: Some(Key { impl_state: last.2, impl_stack: last.3.clone(), impl_m, impl_f, rf: st }), failure: None }
 }
 
 fn short(o: &Outcome) -> String {
@@ -411,7 +438,7 @@ impl Check for C07 {
         true
     }
     fn rule(&self) -> String {
-        "Explicit-state breadth-first search over directive histories. A state is the pair (implementation state read through hook H1: the (state, stack) of cpp::process after the last line plus whether macro M is defined in its Context; reference state: stack of frames {parent active, branch taken, branch selected, else seen} plus M defined). Events: 14 opening forms (#if 0/1/D/Z/!D/!!D/D == 1/Z == Z, #ifdef/#ifndef D/U/M), 5 #elif forms, #else, #endif, a marker declaration, #define M, #undef M, #error, an unknown directive (#pragma), #include of a header that declares a variable; an event is enabled where the arrangement stays well formed and nesting <= bound. Every transition compiles 'history + event' with the real compile(); invariants checked on every transition: implementation active iff reference active after every line; each marker/included declaration reaches CompilerState.variables iff its region is active; M defined afterwards iff its #define was active and not undone; an active #error yields Err(Compiler) with its line and an active unknown directive Err(Syntax) with its line; inactive ones have no effect. Search runs to a fixpoint (no new state pair), so histories of unbounded length within the nesting bound are covered.".into()
+        "Explicit-state breadth-first search over directive histories. A state is the pair (implementation state read through hook H1: the (state, stack) of cpp::process after the last line plus whether macro M is defined in its Context; reference state: stack of frames {parent active, branch taken, branch selected, else seen} plus M defined). Events: 14 opening forms (#if 0/1/D/Z/!D/!!D/D == 1/Z == Z, #ifdef/#ifndef D/U/M), 5 #elif forms, #else, #endif, a marker declaration, #define M, #undef M, #define / #undef / #ifdef of a function-like macro F, #error, an unknown directive (#pragma), #include of a header that declares a variable; an event is enabled where the arrangement stays well formed and nesting <= bound. Every transition compiles 'history + event' with the real compile(); invariants checked on every transition: implementation active iff reference active after every line; each marker/included declaration reaches CompilerState.variables iff its region is active; M defined afterwards iff its #define was active and not undone; an active #error yields Err(Compiler) with its line and an active unknown directive Err(Syntax) with its line; inactive ones have no effect. Search runs to a fixpoint (no new state pair), so histories of unbounded length within the nesting bound are covered.".into()
     }
     fn assumptions(&self) -> Vec<String> {
         vec![
